@@ -1,0 +1,18 @@
+//go:build verif
+
+package builder
+
+// Read-only accessors for the verification harness under /verif (build tag "verif").
+// They add no behaviour to the library.
+
+// VerifIdentPattern returns the source of the compiled identifier pattern.
+func VerifIdentPattern() string { return validIdentifierRegex.String() }
+
+// VerifTypePattern returns the source of the compiled cast-type pattern.
+func VerifTypePattern() string { return validTypeRegex.String() }
+
+// VerifIsValidIdentifier is isValidIdentifier.
+func VerifIsValidIdentifier(s string) bool { return isValidIdentifier(s) }
+
+// VerifIsValidType is isValidType.
+func VerifIsValidType(s string) bool { return isValidType(s) }
